@@ -32,6 +32,8 @@ def main():
     if len(extreme) < 100:
         raise vlib.ToolError("Gen_Extreme produced %d positions" % len(extreme))
     pos = extreme + searches.root_positions() + searches.walk_positions(chk, 1500 if q else 40000)
+    from fen2json import fen2pos
+    pos += [fen2pos(l.strip()) for l in open(os.path.join(vlib.VERIF, "data", "roots_surplus.txt")) if l.strip()]
     pos += searches.mate_positions(chk, [chk.seed % 7] if q else list(range(7)), 40 if q else 2)
 
     def material(sh):
